@@ -58,9 +58,13 @@ def rand_name(rnd, nbytes=None):
 
 
 def rand_desc(rnd, ty=None, on=None, nbytes=None):
-    return [ty or rnd.choice(TYPES), int(rnd.random() < .6 if on is None else on), world.rand_bytes(rnd, 3), rnd.randrange(256), rand_name(rnd, nbytes),
+    on = int(rnd.random() < .6 if on is None else on)
+    rem = rnd.choice([0, 1, 59, 3600, 86399, rnd.randrange(86400)])
+    if not on and rnd.random() < .5:                 # a device that is off may carry anything in its countdown field
+        rem = rnd.choice([86400, 86401, 90000, 2 ** 31, 2 ** 32 - 1, rnd.randrange(86400, 2 ** 32)])
+    return [ty or rnd.choice(TYPES), on, world.rand_bytes(rnd, 3), rnd.randrange(256), rand_name(rnd, nbytes),
             world.rand_bytes(rnd, 4), world.rand_bytes(rnd, 6), rnd.choice([0, 1, 219, 220, 2600, 65535, rnd.randrange(65536)]),
-            rnd.choice([0, 1, 59, 3600, 86399, rnd.randrange(86400)]), rnd.choice([0, 3600, 86399, rnd.randrange(86400)]),
+            rem, rnd.choice([0, 3600, 86399, rnd.randrange(86400)]),
             rnd.choice([0, 1, 99, 100, rnd.randrange(101)]), rnd.choice(DIRS), rnd.choice(world.MODE_NAMES), rnd.choice([0, 255, 256, 65535, rnd.randrange(1000)]),
             rnd.choice([0, 16, 30, 255, rnd.randrange(256)]), rnd.choice(world.FAN_NAMES), int(rnd.random() < .5),
             bytes(rnd.choice(b"ABCELZM0123456789") for _ in range(8))]
